@@ -238,7 +238,7 @@ impl Prop for C17 {
     fn plan(&self, tier: Tier) -> Plan {
         match tier {
             Tier::Quick => Plan { runs: 16000, time_box_s: None, isolation: Isolation::Threads },
-            Tier::Thorough => Plan { runs: 1_000_000, time_box_s: Some(420), isolation: Isolation::Threads },
+            Tier::Thorough => Plan { runs: 4_000_000, time_box_s: Some(420), isolation: Isolation::Threads },
         }
     }
     fn generate(&self, rc: &RunCtx) -> Case {
